@@ -20,7 +20,7 @@ META = {
                    '(optionally with copy-on-interception while the service mutates what it received), then the stored recording is read '
                    'through every hand-out path - get_data, item access, metadata, recorded-output extraction, replay injection with the '
                    'replayed code mutating what it was given - with a seeded in-place mutation applied between any two reads, fetches '
-                   'and replays, on all three cassettes.  Later reads must equal the first read\'s original value. Also: two or more threads reading from one fetched recording under the line-level scheduler with pre-emption inside the copy, value classes whose copy hooks return self, and copy failures in an earlier operation on the same recorder.'),
+                   'and replays, on all three cassettes.  Later reads must equal the first read\'s original value. Also: two or more threads reading from one fetched recording under the line-level scheduler with pre-emption inside the copy, value classes whose copy hooks return self, and copy failures in an earlier operation on the same recorder. Copy-on-interception switched on by assigning the attribute of a registered parameters object.'),
     'level_note': 'Trusted: in-place mutation generator (simkit.values.mutate_in_place), canonical form comparison. Output arguments are never copied at interception time by design and are not mutated by the generated service.',
     'rule': ('evaluation = one recorded service followed by 2-5 rounds of read / mutate / read over every key and path, two fetches and two replays; '
              'non-trivial = at least one handed-out mutable value was really mutated; distinct = distinct event-log digest.'),
